@@ -474,8 +474,28 @@ def check_k6(ctx, rep, f):
             bound = c.args[2] if cal.name == 'check_equal_languages' and len(c.args) >= 3 else (c.args[1] if cal.name != 'check_equal_languages' else None)
             if bound is not None:
                 calls.append((c, u(bound), bound))
+    # a bounded comparison that is called WITHOUT its bound falls back to the callee's default: if the checker has a bound
+    # parameter of its own, that knob (and the documented bound of the exercise) is silently ignored
+    own_bounds = [p.arg for p in f.pos_params if p.arg in f.defaults and isinstance(f.defaults[p.arg], ast.Constant) and isinstance(f.defaults[p.arg].value, int)
+                  and not isinstance(f.defaults[p.arg].value, bool) and (p.annotation is None or u(p.annotation) == 'int')]
+    omitted = 0
+    for c in ctx.prog.calls_in(f):
+        cal = ctx.callee(f, c)
+        if cal is None or cal is f:
+            continue
+        cb = [p.arg for p in cal.pos_params if p.arg in ('length', 'n', 'max_length', 'bound') and p.arg in cal.defaults]
+        if not cb or not own_bounds:
+            continue
+        names = [p.arg for p in cal.pos_params]
+        for b in cb:
+            i = names.index(b)
+            passed = c.args[i] if i < len(c.args) else next((k.value for k in c.keywords if k.arg == b), None)
+            if passed is None:
+                omitted += 1
+                rep.violates(RULE + '.K6', f, c, "{}() is called without its bound `{}` (default {}), although the checker has the bound parameter `{}` (default {}): answers that differ from the reference only on words longer than {} get OK".format(
+                    cal.name, b, u(cal.defaults[b]), own_bounds[0], u(f.defaults[own_bounds[0]]), u(cal.defaults[b])))
     if len(calls) < 1:
-        return 0
+        return 1 if omitted else 0
     bounds = {b for _, b, _ in calls}
     if len(bounds) > 1:
         rep.violates(RULE + '.K6', f, calls[0][0], 'the compared languages are generated with different bounds: {}'.format(', '.join(sorted(bounds))))
